@@ -28,6 +28,7 @@ var c17Fams = []pagerFam{
 	{"path-mid", func(i int) string { return fmt.Sprintf("http://example.com/story/%d/full", i) }},
 	{"suffix-padded", func(i int) string { return fmt.Sprintf("http://example.com/some-title-%02d.html", i) }},
 	{"path-padded", func(i int) string { return fmt.Sprintf("http://example.com/holiday/%02d", i) }},
+	{"dir-slash-query", func(i int) string { return fmt.Sprintf("http://example.com/story/view/?page=%d", i) }},
 	{"path-escaped", func(i int) string { return fmt.Sprintf("http://example.com/story/caf%%C3%%A9/%d", i) }},
 	{"dir-space-query", func(i int) string { return fmt.Sprintf("http://example.com/my%%20story/view?page=%d", i) }},
 	{"suffix-nonascii", func(i int) string { return fmt.Sprintf("http://example.com/story/caf\u00e9-%d.html", i) }},
@@ -212,6 +213,12 @@ func c17Enumerate(tier string, emit func(*eng.Case)) {
 // normPageURL: one trailing slash dropped, percent-escapes decoded (the library may report either
 // spelling of an escaped path; which one is not part of the property).
 func normPageURL(s string) string {
+	if u, err := nurl.Parse(s); err == nil && u.Host != "" {
+		// the slash that ends the path, also in front of a query
+		u.Path = strings.TrimSuffix(u.Path, "/")
+		u.RawPath = ""
+		s = u.String()
+	}
 	s = strings.TrimSuffix(s, "/")
 	if d, err := nurl.PathUnescape(s); err == nil {
 		return d
@@ -269,7 +276,7 @@ func init() {
 	eng.Register(&eng.Prop{
 		ID:        "C17",
 		DesignRef: "§5 C17",
-		Rule: "every (N in 2..12, k in 1..N) x 13 URL families (two with zero-padded numbers, three with an escaped or non-ASCII path) x pager markups (separator incl. ones glued to the numbers, wrapper, current-page decoration, absolute/root-relative hrefs, bracketed link labels [i] (i) [ i ], a 'Page k of N' / 'N pages' label in front of the numbers, pager before/after article, trailing slash on path families) for PageNumber; " +
+		Rule: "every (N in 2..12, k in 1..N) x 14 URL families (one whose path ends in a slash in front of the query, two with zero-padded numbers, three with an escaped or non-ASCII path) x pager markups (separator incl. ones glued to the numbers, wrapper, current-page decoration, absolute/root-relative hrefs, bracketed link labels [i] (i) [ i ], a 'Page k of N' / 'N pages' label in front of the numbers, pager before/after article, trailing slash on path families) for PageNumber; " +
 			"x {Prev,Previous} x 3 placements of the labelled anchors for PrevNext; quick varies at most one markup dimension at a time, thorough takes the full product. Oracle: next = link(k+1), prev = link(k-1). " +
 			"Non-trivial = inner pages (1<k<N), where both links are demanded.",
 		Enumerate: c17Enumerate,
